@@ -48,7 +48,7 @@ int g_k, g_cur, g_has_k, g_foreign, g_clear_calls, g_contribs, g_assign_calls, g
 int g_scale, g_b, g_addb, g_add_pos; R v_add;
 int g_c, g_cin, g_cw, v_bind;
 /* ghost copies */
-R v_kj, v_xk, v_rhs_p, v_rhs_r1, v_rhs_r2; int v_cexp, v_rexp, v_rexp_c, v_rexpb, v_binfo, v_bnum;
+R v_kj, v_xk, v_rhs_p, v_rhs_r1, v_rhs_r2, v_vec_r; int v_cexp, v_rexp, v_rexp_c, v_rexpb, v_binfo, v_bnum;
 void verif_throw(void) {}
 #define EXP_OK(e) (-EXP_MAX <= (e) && (e) <= EXP_MAX)
 #define FIN_OK(x) (-FIN <= (x) && (x) <= FIN)
@@ -190,6 +190,39 @@ void h_mult_row(void)
    g_r1 = nondet_int(); g_r2 = nondet_int(); g_scale = nondet_int(); g_b = -1; g_c = -1; v_acc = nondet_ll();
    v_sub_a = nondet_ll(); v_sub_b = nondet_ll(); v_sub = nondet_ll(); g_dot_src = -1;
    w_mult_row(vec, unscale, n, nc, isScaled, s1, s2, bind, dsv, dsi);
+   CANARY();
+}
+#endif
+
+#ifdef INST_MULTT_ROW
+/* B' v: component k = (column k of B) . v.  Column k of B is the unit vector e_r for the basic slack of row r (bind[k] = -1-r):
+ * the component is v[r], stored AT POSITION k (not at the row number r).  For a basic column j it is DOT(v, A_{.,j}) with the
+ * UNSCALED column iff unscaling is requested and the LP is scaled. */
+int w_multt_row(R* vec, int unscale, int n, int nc, int isScaled, R* s1, int* bind, R* dsv, int* dsi)
+__CPROVER_requires(0 < n && n <= CAP && 0 < nc && nc <= CAP && g_n == n && g_nc == nc)
+__CPROVER_requires(__CPROVER_is_fresh(vec, n * sizeof(R)) && __CPROVER_is_fresh(s1, n * sizeof(R)) && __CPROVER_is_fresh(bind, n * sizeof(int)))
+__CPROVER_requires(__CPROVER_is_fresh(dsv, n * sizeof(R)) && __CPROVER_is_fresh(dsi, n * sizeof(int)))
+/* ghost basis position g_p (= g_b, the index of sparse entries that is watched); v_bind = the entry getBasisInd() returns there */
+__CPROVER_requires(0 <= g_p && g_p < n && g_b == g_p && BIND_OK(v_bind) && g_r2 == -1)
+__CPROVER_requires(v_bind < 0 ==> (g_r1 == -1 - v_bind && v_vec_r == vec[g_r1]))
+__CPROVER_requires(v_bind >= 0 ==> (g_r1 == -1 && g_dot_src == v_bind))
+__CPROVER_requires(g_scale == (SCALE ? 1 : 0))
+GHOST_ASSIGNS
+__CPROVER_assigns(__CPROVER_object_whole(vec), __CPROVER_object_whole(s1), __CPROVER_object_whole(bind), __CPROVER_object_whole(dsv), __CPROVER_object_whole(dsi))
+__CPROVER_ensures(__CPROVER_return_value == 1)
+__CPROVER_ensures(g_getbind_calls == 1 && g_bind_ok && g_alloc_calls == 1 && g_free_calls == 1)
+/* exactly one term is stored for position g_p, and the result is read off the sparse vector of these terms */
+__CPROVER_ensures(g_addb == 1 && g_assign_calls == 1)
+__CPROVER_ensures(v_bind < 0 ==> vec[g_p] == v_vec_r)
+__CPROVER_ensures(v_bind >= 0 ==> vec[g_p] == v_dot)
+;
+void h_multt_row(void)
+{
+   R* vec; int unscale, n, nc, isScaled; R* s1; int* bind; R* dsv; int* dsi;
+   g_n = nondet_int(); g_nc = nondet_int(); g_p = nondet_int(); g_b = nondet_int(); g_q = nondet_int(); v_bind = nondet_int(); v_vec_r = nondet_ll();
+   g_r1 = nondet_int(); g_r2 = nondet_int(); g_scale = nondet_int(); g_dot_src = nondet_int(); v_dot = nondet_ll(); g_c = -1; g_k = -1;
+   v_sub_a = nondet_ll(); v_sub_b = nondet_ll(); v_sub = nondet_ll();
+   w_multt_row(vec, unscale, n, nc, isScaled, s1, bind, dsv, dsi);
    CANARY();
 }
 #endif
